@@ -61,6 +61,29 @@ type BatchSpec struct {
 	Faults   [][]any `json:"faults"`
 	Resend   int     `json:"resend"` // >0: re-encode the input of batch (k - resend) instead of generating
 	Stats    bool    `json:"stats"`  // call the public Producer.GetAndResetStats() before this batch
+	// AllocFail: the producer's allocator starts failing (panicking, like the repository's LimitedAllocator) when the
+	// first record of this batch is handed to the IPC writer, and recovers after the call: a fault INSIDE Produce
+	AllocFail bool `json:"allocfail"`
+}
+
+// failAlloc wraps the producer's allocator; while fail is set every request for more memory panics.
+type failAlloc struct {
+	memory.Allocator
+	fail bool
+}
+
+func (a *failAlloc) Allocate(n int) []byte {
+	if a.fail {
+		panic("verif: allocator exhausted")
+	}
+	return a.Allocator.Allocate(n)
+}
+
+func (a *failAlloc) Reallocate(n int, b []byte) []byte {
+	if a.fail && n > len(b) {
+		panic("verif: allocator exhausted")
+	}
+	return a.Allocator.Reallocate(n, b)
 }
 
 type Stream struct {
@@ -80,9 +103,16 @@ type Stream struct {
 
 // ---------------------------------------------------------------- observers
 
-type obsRec struct{ evs [][]any }
+type obsRec struct {
+	evs      [][]any
+	onRecord func()
+}
 
-func (o *obsRec) OnRecord(arrow.Record, record_message.PayloadType) {}
+func (o *obsRec) OnRecord(arrow.Record, record_message.PayloadType) {
+	if o.onRecord != nil {
+		o.onRecord()
+	}
+}
 func (o *obsRec) OnNewField(rec, f string) {
 	o.evs = append(o.evs, []any{"NewField", rec, f, "", "", 0, 0})
 }
@@ -497,6 +527,23 @@ type Emitter struct {
 	// SW, when set, receives the payload-level protocol events validated against Stream.tla
 	SW   *bufio.Writer
 	SSeq int
+	// WW, when set, receives the id / parent-id view of small emitted batches (OtapWire.tla)
+	WW   *bufio.Writer
+	WSeq int
+}
+
+// EmitWire writes one emitted batch as the independent reader sees its id / parent-id columns, with the input.
+func (e *Emitter) EmitWire(tr, k int, sig string, in []*Node, tabs []any) {
+	if e.WW == nil {
+		return
+	}
+	e.WSeq++
+	b, err := json.Marshal(map[string]any{"tr": tr, "seq": e.WSeq, "k": k, "sig": sig, "in": in, "tabs": tabs})
+	if err != nil {
+		return
+	}
+	e.WW.Write(b)
+	e.WW.WriteByte('\n')
 }
 
 // EmitStream writes one protocol event (uniform fields).
@@ -570,8 +617,18 @@ type Capture struct {
 func RunStream(em *Emitter, tr int, st *Stream) { RunStreamCapture(em, tr, st, nil) }
 
 func RunStreamCapture(em *Emitter, tr int, st *Stream, capt *Capture) {
+	for _, b := range st.Batches {
+		if b.AllocFail && em.SW != nil {
+			// a fault inside Produce is not a step of Stream.tla: such streams are not validated against it
+			sw := em.SW
+			em.SW = nil
+			defer func() { em.SW = sw }()
+			break
+		}
+	}
 	pool := memory.NewCheckedAllocator(memory.NewGoAllocator())
 	ob := &obsRec{}
+	fa := &failAlloc{Allocator: pool}
 	var p *arrow_record.Producer
 	func() {
 		defer func() {
@@ -579,7 +636,7 @@ func RunStreamCapture(em *Emitter, tr int, st *Stream, capt *Capture) {
 				p = nil
 			}
 		}()
-		p = arrow_record.NewProducerWithOptions(producerOptions(st.Opts, pool, ob)...)
+		p = arrow_record.NewProducerWithOptions(producerOptions(st.Opts, fa, ob)...)
 	}()
 	ojs, _ := json.Marshal(st.Opts)
 	limitEntries := -1 // no limit
@@ -619,6 +676,7 @@ func RunStreamCapture(em *Emitter, tr int, st *Stream, capt *Capture) {
 	c := arrow_record.NewConsumer(copts...)
 	var cntSeen [2]int64
 	wire := NewWire()
+	wire.Tabs = em.WW != nil
 	healthy := true
 	inputs := []any{}
 	sidOf := map[string]string{} // ptype -> current sid
@@ -706,7 +764,12 @@ func RunStreamCapture(em *Emitter, tr int, st *Stream, capt *Capture) {
 			inNodes = []*Node{}
 		}
 		ob.evs = nil
+		ob.onRecord = nil
+		if bs.AllocFail {
+			ob.onRecord = func() { fa.fail = true }
+		}
 		bar, oc, msg := encode(p, in)
+		fa.fail = false
 		after := marshal(in)
 		ev := map[string]any{"k": k, "sig": sig, "oc": oc, "err": msg, "n": itemCount(in), "in": inNodes,
 			"flag": boolp(string(before) == string(after)), "obs": ob.evs, "a": boolp(bs.NoDump), "x": bs.Gen}
@@ -720,11 +783,17 @@ func RunStreamCapture(em *Emitter, tr int, st *Stream, capt *Capture) {
 			}
 			ev["bid"] = int(bar.BatchId)
 			pls := []any{}
+			tabs, tabsOK := []any{}, em.WW != nil && !st.NoWire && !bs.NoDump && len(inNodes) > 0 && len(inNodes) <= wireTabMaxRows
 			for _, pl := range bar.ArrowPayloads {
 				pt := pl.Type.String()
 				if !st.NoWire {
 					pv := wire.Add(pl.SchemaId, pt, pl.Record)
 					pls = append(pls, pv)
+					if pv.tab == nil || pv.Indep != "ok" {
+						tabsOK = false
+					} else {
+						tabs = append(tabs, map[string]any{"pt": pt, "rows": pv.tab})
+					}
 				} else {
 					pls = append(pls, PayloadView{Sid: pl.SchemaId, Ptype: pt, Bytes: len(pl.Record), Msgs: []string{}, Rows: -1, Indep: "skipped", Dicts: [][]any{}})
 				}
@@ -734,6 +803,9 @@ func RunStreamCapture(em *Emitter, tr int, st *Stream, capt *Capture) {
 				sidOf[pt] = pl.SchemaId
 			}
 			ev["pl"] = pls
+			if tabsOK {
+				em.EmitWire(tr, k, sig, inNodes, tabs)
+			}
 		}
 		em.Emit(tr, "Encode", ev)
 		if em.SW != nil && HaveProjection && st.Lag == 0 {
@@ -1016,6 +1088,17 @@ func RunStreamCapture(em *Emitter, tr int, st *Stream, capt *Capture) {
 		}
 	}
 	em.Emit(tr, "Close", map[string]any{"a": bal, "err": cerr, "n": changed})
+	if tr%3 == 0 {
+		// Close is also called a second time (an explicit Close on the happy path plus a deferred one is ordinary use):
+		// whatever a producer gives back to shared facilities must not be given back twice
+		func() {
+			defer func() { _ = recover() }()
+			_ = p.Close()
+		}()
+		if b2 := pool.CurrentAlloc(); b2 != bal {
+			em.Emit(tr, "Close", map[string]any{"a": b2, "err": "", "n": 0})
+		}
+	}
 	func() {
 		defer func() { _ = recover() }()
 		_ = c.Close()
